@@ -17,7 +17,8 @@ slice.  Any other construction of the sense vector is outside the interpreted id
 import ast
 
 from rsx.ctor import bind_args
-from .common import (AnalysisError, Finding, RuleResult, ntext, walk_no_nested, call_name)
+from .common import (AnalysisError, Finding, RuleResult, ntext, walk_no_nested, call_name, single_defs,
+                     expand_locals, pmatch)
 
 RULE = 'R29'
 TEXT = ('in le_to_rc the sense vector of each block of stationarity rows is the support\'s sense '
@@ -25,85 +26,88 @@ TEXT = ('in le_to_rc the sense vector of each block of stationarity rows is the 
 P = {'props': ['C01', 'C03']}
 
 
+def slice_key(sl):
+    """canonical text of a row selection: [:n] == [0:n] == [:n, :]"""
+    if isinstance(sl, ast.Tuple) and len(sl.elts) == 2 and isinstance(sl.elts[1], ast.Slice) and \
+            sl.elts[1].lower is None and sl.elts[1].upper is None and sl.elts[1].step is None:
+        sl = sl.elts[0]
+    if isinstance(sl, ast.Slice):
+        lo = None if sl.lower is None or (isinstance(sl.lower, ast.Constant) and sl.lower.value == 0) else ntext(sl.lower)
+        hi = None if sl.upper is None else ntext(sl.upper)
+        st = None if sl.step is None else ntext(sl.step)
+        return 'slice(%s,%s,%s)' % (lo, hi, st)
+    return ntext(sl)
+
+
 def run(repo):
     res = RuleResult(RULE, 'row-layout agreement in the robust counterpart', TEXT)
     res.floor = 3
     fi = repo.func('lp.RoConstr.le_to_rc')
     res.functions.add(fi.fq)
-    # anchor 1: dual_var = <model>.dvar((num_constr, size_support))
+    defs = single_defs(fi.node)
+
+    def ex(e):
+        return expand_locals(fi.node, e, depth=4, defs=defs)
+    # anchor 1: the multiplier matrix  <model>.dvar((rows, size_support))
     dv = None
     for n in walk_no_nested(fi.node):
-        if isinstance(n, ast.Assign) and isinstance(n.value, ast.Call) and ntext(n.value.func).endswith('.dvar') \
-                and n.value.args and isinstance(n.value.args[0], ast.Tuple):
+        if isinstance(n, ast.Assign) and len(n.targets) == 1 and isinstance(n.targets[0], ast.Name) and \
+                pmatch('__.dvar((_r, _c))', n.value)[0] == 'match':
             dv = n
     if dv is None:
-        raise AnalysisError('le_to_rc: allocation of the multiplier matrix not found')
-    dual = ntext(dv.targets[0])
-    first_dim = ntext(dv.value.args[0].elts[0])
-    ok = first_dim == 'num_constr'
-    res.inst({'multipliers': ntext(dv)[:70], 'rows_are_constraints': ok}, ok)
-    if not ok:
-        raise AnalysisError('le_to_rc: the multiplier matrix is no longer (num_constr, size_support)')
-    # walk statements in order, tracking the latest definition of `left` and of sense vectors
-    defs = {}
-    blocks = []
-    for n in walk_no_nested(fi.node):
-        pass
-    order = [n for n in ast.walk(fi.node) if isinstance(n, ast.Assign) and len(n.targets) == 1
-             and isinstance(n.targets[0], ast.Name)]
-    order.sort(key=lambda n: (n.lineno, n.col_offset))
-    lincs = []
-    for n in order:
-        name = n.targets[0].id
-        v = n.value
-        if isinstance(v, ast.Call) and ntext(v.func) == 'LinConstr':
-            env = bind_args(repo.func('lp.LinConstr.__init__'), v)
-            lincs.append((n, env, dict(defs)))
-        # a later `left = left + ...` keeps the first (matrix-product) definition as the layout source
-        if name == 'left' and isinstance(v, ast.BinOp) and isinstance(v.op, ast.MatMult):
-            defs['left'] = v
-        elif name != 'left':
-            defs[name] = v
+        raise AnalysisError('le_to_rc: allocation of the multiplier matrix <model>.dvar((rows, cols)) not found')
+    dual = dv.targets[0].id
+    nrows = ntext(ex(dv.value.args[0].elts[0]))
+    res.inst({'multipliers': ntext(dv)[:70], 'rows': nrows}, True)
+    # stationarity blocks and the LinConstr built from them, in source order
+    assigns = sorted([n for n in ast.walk(fi.node) if isinstance(n, ast.Assign) and len(n.targets) == 1
+                      and isinstance(n.targets[0], ast.Name)], key=lambda n: (n.lineno, n.col_offset))
+    cur = {}            # name -> (slice key of the support rows, node)
     n_blocks = 0
-    for node, env, d in lincs:
-        sense = env.get('sense')
-        if not isinstance(sense, ast.Name) or 'left' not in ntext(env.get('linear')):
+    for n in assigns:
+        name, v = n.targets[0].id, n.value
+        st, b, _d = pmatch('%s @ _SL[_S].T' % dual, v)
+        if st == 'match' and b['_SL'][1].endswith('.linear'):
+            cur[name] = (slice_key(v.right.value.slice), n, b['_SL'][1][:-len('.linear')])
             continue
-        left = d.get('left')
-        sdef = d.get(sense.id)
-        if left is None or sdef is None:
-            raise AnalysisError('le_to_rc: definitions of left / %s not found before %s' % (sense.id, ntext(node)[:40]))
-        if ntext(left.left) != dual:
-            raise AnalysisError('le_to_rc: stationarity rows are not built as %s @ ...' % dual)
-        # slice of support.linear on the right-hand side of the product
-        lin_slices = [ntext(x.slice) for x in ast.walk(left.right)
-                      if isinstance(x, ast.Subscript) and ntext(x.value) == 'support.linear']
-        if len(lin_slices) != 1:
-            raise AnalysisError('le_to_rc: cannot find the slice of support.linear in `%s`' % ntext(left)[:50])
-        n_blocks += 1
-        fn = call_name(sdef) if isinstance(sdef, ast.Call) else None
-        sen_slices = [ntext(x.slice) for x in ast.walk(sdef)
-                      if isinstance(x, ast.Subscript) and ntext(x.value) == 'support.sense']
-        probs = []
-        if fn in ('np.repeat', 'numpy.repeat'):
-            probs.append('is np.repeat(..): each sense is repeated element-wise, so row n*|S|+j gets the '
-                         'sense of another support row; the rows are laid out constraint-major and need '
-                         'np.tile(pattern, num_constr)')
-        elif fn in ('np.tile', 'numpy.tile'):
-            reps = ntext(sdef.args[1]) if len(sdef.args) > 1 else ''
-            if reps != 'num_constr':
-                probs.append('tiles the pattern %s times instead of num_constr' % reps)
-        else:
-            raise AnalysisError('le_to_rc: the sense vector `%s = %s` is built in a form the rule does '
-                                'not interpret' % (sense.id, ntext(sdef)[:50]))
-        if sen_slices != lin_slices:
-            probs.append('takes support.sense[%s] while the rows come from support.linear[%s]'
-                         % (','.join(sen_slices), ','.join(lin_slices)))
-        ok = not probs
-        res.inst({'rows': ntext(left)[:60], 'sense': '%s = %s' % (sense.id, ntext(sdef)[:50]), 'ok': ok}, ok)
-        for pr in probs:
-            res.fail(Finding(RULE, fi.fq, '%s layout' % sense.id,
-                             'le_to_rc: the sense vector %s %s' % (sense.id, pr), repo.where(fi, node), P))
+        if isinstance(v, ast.Call) and call_name(v) == 'LinConstr':
+            env = bind_args(repo.func('lp.LinConstr.__init__'), v) or {}
+            lin = env.get('linear')
+            src = [k for k in cur if lin is not None and any(isinstance(x, ast.Name) and x.id == k for x in ast.walk(lin))]
+            if not src:
+                continue
+            rows_key, _node, sup = cur[src[0]]
+            n_blocks += 1
+            sense = env.get('sense')
+            if sense is None:
+                raise AnalysisError('le_to_rc: `%s` has no sense argument' % ntext(v)[:50])
+            sdef = ex(sense)
+            probs = []
+            st_t, bt, _ = pmatch('np.tile(_SS[_S2], _REPS)', sdef)
+            st_r, br, _ = pmatch('np.repeat(_SS[_S2], _REPS)', sdef)
+            if st_r == 'match':
+                probs.append('is np.repeat(..): each sense is repeated element-wise, so row n*|S|+j gets the '
+                             'sense of another support row; the rows are laid out constraint-major and need '
+                             'np.tile(pattern, <number of robust rows>)')
+                bt = br
+            elif st_t == 'match':
+                if ntext(ex(bt['_REPS'][2])) != nrows:
+                    probs.append('tiles the pattern %s times instead of once per robust row (%s)'
+                                 % (bt['_REPS'][1], nrows))
+            else:
+                raise AnalysisError('le_to_rc: the sense vector `%s` is built in a form the rule does not '
+                                    'interpret' % ntext(sdef)[:60])
+            if bt['_SS'][1] != sup + '.sense':
+                probs.append('takes the senses from `%s`, the rows from `%s.linear`' % (bt['_SS'][1], sup))
+            elif slice_key(bt['_S2'][2]) != rows_key:
+                probs.append('takes %s.sense[%s] while the rows come from %s.linear[%s]'
+                             % (sup, bt['_S2'][1], sup, ntext(_node.value.right.value.slice)))
+            ok = not probs
+            res.inst({'rows': ntext(_node.value)[:60], 'sense': ntext(sdef)[:60], 'ok': ok}, ok)
+            for pr in probs:
+                res.fail(Finding(RULE, fi.fq, 'sense layout of block %d' % n_blocks,
+                                 'le_to_rc: the sense vector `%s` %s' % (ntext(sense)[:30], pr), repo.where(fi, n), P))
     if n_blocks < 2:
-        raise AnalysisError('le_to_rc: only %d stationarity blocks found' % n_blocks)
+        raise AnalysisError('le_to_rc: only %d stationarity blocks (dual_var @ support.linear[S].T -> LinConstr) found'
+                            % n_blocks)
     return res
